@@ -157,8 +157,10 @@ class Oracle:
         v = f[0]
         if v == "set":
             return [it.split("|")[0] for it in f[2:]]
-        if v in ("get", "mget", "gbk", "shift", "del", "arek"):
+        if v in ("get", "mget", "gbk", "shift", "del", "mdel", "arek"):
             return f[1:]
+        if v == "mset":
+            return [it.split("|")[0] for it in f[2:]]
         if v in ("iske", "size", "hasval"):
             return [f[1]]
         if v == "inc":
@@ -283,6 +285,40 @@ class Oracle:
             def commit():
                 self.st = st
             return " ".join(["shift"] + out), commit
+        if v == "mcount":
+            # one Count over (this swamp, a swamp never created, this swamp): answers in request order
+            e, _ = self.expect(["count"], now_tok)
+            if e is None:
+                return None, None
+            c = e[len("count "):]
+            return "mcount %s / - / %s" % (c, c), nothing
+        if v == "mdel":
+            # one Delete over (a swamp never created, this swamp)
+            e, commit = self.expect(["del"] + f[1:], now_tok)
+            if e is None:
+                return None, None
+            return "mdel ERR:SwampDoesNotExist / " + e[len("del "):], commit
+        if v == "mset":
+            # one Set naming this swamp twice with the same items: the second entry meets what the first stored
+            import copy
+            snap = copy.deepcopy((self.st, self.complete, self.ghost))
+            e1, c1 = self.expect(["set"] + f[1:], now_tok)
+            if e1 is None:
+                return None, None
+            if e1.startswith("err:"):
+                return e1, nothing
+            c1()
+            e2, c2 = self.expect(["set"] + f[1:], now_tok)
+            if e2 is not None:
+                c2()
+            after = (self.st, self.complete, self.ghost)
+            self.st, self.complete, self.ghost = snap
+            if e2 is None:
+                return None, None
+
+            def commit():
+                self.st, self.complete, self.ghost = after
+            return "mset %s / %s" % (e1[len("set "):], e2[len("set "):]), commit
         if v == "del":
             if not ex:
                 return "del ERR:SwampDoesNotExist", nothing
@@ -443,7 +479,7 @@ class Oracle:
             self.st, self.complete = {}, True
 
 
-READ_ONLY = ("get", "mget", "getall", "gbk", "count", "iske", "arek", "issw", "size", "hasval", "compact")
+READ_ONLY = ("get", "mget", "mcount", "getall", "gbk", "count", "iske", "arek", "issw", "size", "hasval", "compact")
 
 
 def check_case(ops, impl, skip_lines=(), stats=None):
@@ -464,12 +500,12 @@ def _check_case(ops, impl, skip_lines, stats):
     opno = 0
     stats["lines"] = stats.get("lines", 0) + max(0, min(len(ops), len(impl)) - 1)
     for i in range(1, min(len(ops), len(impl))):
-        f = ops[i].split(" ")
+        f = ops[i].replace("~v|", "|").split(" ")     # `V~v`: typed value sent with VoidVal = true — V counts
         got = impl[i]
-        if got in ("skip", "hang") or f[0] == "wait":
-            if got == "hang" and i not in skip_lines:
+        if got == "skip" or got.startswith("hang") or f[0] in ("wait", "within"):
+            if got.startswith("hang") and i not in skip_lines:
                 bad.append((i, ops[i], "a reply", got))
-            if got == "hang":
+            if got.startswith("hang"):
                 break
             continue
         if f[0] in ("closeidle", "restart", "close"):
@@ -479,6 +515,17 @@ def _check_case(ops, impl, skip_lines, stats):
             o.close()
             if i in skip_lines:
                 o.forget(None)     # a listed finding changed what the reload shows
+            continue
+        if f[0] in ("shiftexp", "patchexp", "patch", "getidx", "fexp"):
+            # expiry-aware requests (C30's subject): what they change is not predicted here, only forgotten,
+            # so that the next GetAll and the reload comparison start from what the implementation shows
+            opno += 1
+            if f[0] == "patch":
+                o.forget([f[2]])
+                o.forget_existence()
+            elif f[0] in ("shiftexp", "patchexp"):
+                o.forget(None)
+                o.forget_existence()
             continue
         if f[0] != "compact":
             opno += 1             # server stamps are written T<number of the request that took them>
@@ -492,7 +539,7 @@ def _check_case(ops, impl, skip_lines, stats):
         exp, commit = o.expect(f, "T%d" % opno)
         if exp is None:
             stats["unknown"] = stats.get("unknown", 0) + 1
-            o.forget(o.keys_of(f) if f[0] in ("set", "inc", "push", "u32del", "shift", "del") else [])
+            o.forget(o.keys_of(f) if f[0] in ("set", "mset", "inc", "push", "u32del", "shift", "del", "mdel") else [])
             o.learn(f, got)
             continue
         stats["evaluated"] = stats.get("evaluated", 0) + 1
